@@ -94,13 +94,6 @@ Proof.
   - congruence.
 Qed.
 
-(* the node `query` hands out is the end of the walk from the scope the bubbling stopped at *)
-Fixpoint resolving_scope (n : node) (steps : list QueryTraversalStep) : node :=
-  match steps with
-  | Super pn :: rest => resolving_scope pn rest
-  | _ => n
-  end.
-
 Lemma symbols_of_map : forall l, symbols_of (map Symbol l) = l.
 Proof. induction l; cbn; congruence. Qed.
 
